@@ -50,6 +50,7 @@ class UnitResult:
     assembled: Optional[asm.Assembled] = None
     verus_version: str = ''
     raw_diags: List[dict] = field(default_factory=list)
+    recoveries: List[str] = field(default_factory=list)   # R25-R27: what was left out / pulled in to get the changed code through the front end
 
 
 def unit_serves(unit_path: str) -> List[str]:
@@ -103,14 +104,27 @@ def verify_unit(unit_path: str, contracts, canary: bool = False, rlimit: float =
     outdir = os.path.join(BUILD, unit)
     os.makedirs(outdir, exist_ok=True)
     fname = os.path.join(outdir, unit + ('_canary' if canary else '') + '.rs')
-    try:
-        a = asm.assemble(unit_path, contracts, canary=canary)
-    except asm.LostAnchor as e:
-        return UnitResult(unit, fname, '', 'lost-anchor', str(e), wall_s=time.time() - t0)
-    with open(fname, 'w') as f:
-        f.write(a.text)
-    rc, out, err, cmd = run_verus(fname, rlimit, seed, threads)
+    drop_clauses: set = set()
+    drop_inserts: set = set()
+    extras: List[Tuple[str, str, str]] = []
+    recoveries: List[str] = []
+    base_sha = baseline_fn_sha()
+    for _round in range(6):
+        asm.DROP_CLAUSES, asm.DROP_INSERTS = drop_clauses, drop_inserts
+        try:
+            a = asm.assemble(unit_path, contracts, canary=canary, extras=extras)
+        except asm.LostAnchor as e:
+            return UnitResult(unit, fname, '', 'lost-anchor', str(e), wall_s=time.time() - t0)
+        finally:
+            asm.DROP_CLAUSES, asm.DROP_INSERTS = set(), set()
+        with open(fname, 'w') as f:
+            f.write(a.text)
+        rc, out, err, cmd = run_verus(fname, rlimit, seed, threads)
+        new = _recover(a, err, os.path.basename(fname), base_sha, drop_clauses, drop_inserts, extras, recoveries)
+        if not new:
+            break
     res = UnitResult(unit, fname, cmd, 'ok', assembled=a)
+    res.recoveries = recoveries + ['%s: annotation left out: %s' % (f.item, l) for f in a.fns for l in f.lost]
     try:
         j = json.loads(out) if out.strip() else {}
     except json.JSONDecodeError:
@@ -217,6 +231,76 @@ def verify_unit(unit_path: str, contracts, canary: bool = False, rlimit: float =
         res.status = 'internal'
         res.detail = (err or out)[-2000:]
     return res
+
+
+_BASE_SHA = None
+
+
+def baseline_fn_sha() -> Dict[str, str]:
+    """sha256 of every function text at the time the baseline was taken (to tell changed functions from unchanged ones)"""
+    global _BASE_SHA
+    if _BASE_SHA is None:
+        try:
+            _BASE_SHA = json.load(open(os.path.join(VERIF, 'baseline', 'obligations.json'))).get('_fn_sha', {})
+        except (FileNotFoundError, json.JSONDecodeError):
+            _BASE_SHA = {}
+    return _BASE_SHA
+
+
+_UNKNOWN_FN = re.compile(r"cannot find function `(\w+)` in this scope")
+_UNKNOWN_METHOD = re.compile(r"no (?:method|function or associated item) named `(\w+)` found for (?:reference |struct |mutable reference )?`&?(?:mut )?'?\w*\s*(\w+)")
+
+
+def _recover(a: asm.Assembled, err: str, base: str, base_sha, drop_clauses: set, drop_inserts: set, extras: list, log: list) -> bool:
+    """Front-end errors caused by a *changed* function are worked around so that the verifier can still be asked about the
+    obligations (rules R25-R27); errors in unchanged text are never worked around.  Returns True if something new was done."""
+    new = False
+    for line in err.split('\n'):
+        line = line.strip()
+        if not line.startswith('{'):
+            continue
+        try:
+            d = json.loads(line)
+        except json.JSONDecodeError:
+            continue
+        if d.get('level') != 'error' or (d.get('message') or '').startswith('aborting due to'):
+            continue
+        msg = d.get('message') or ''
+        if VERIFICATION_MSG.search(msg) and not d.get('code'):
+            continue
+        spans = [s for s in d.get('spans', []) if s.get('file_name', '').endswith(base)]
+        for sp in spans:
+            o = a.origin_at(sp['byte_start'])
+            fi = a.fn_at(sp['byte_start'])
+            if fi is None:
+                continue
+            label = '%s::%s' % (fi.file, fi.item)
+            changed = fi.auto_added or (label in base_sha and base_sha[label] != fi.sha256)
+            if o.get('kind') == 'clause' and (fi.mode == 'stub' and changed or fi.mode == 'body' and changed):
+                key = (o.get('fn'), o.get('label'))
+                if key not in drop_clauses:
+                    drop_clauses.add(key)
+                    log.append('R25 %s: clause %s left out (does not compile against the changed signature/body: %s)' % (fi.item, o.get('label'), msg[:100]))
+                    new = True
+            elif o.get('kind') == 'insert' and fi.mode == 'body' and changed:
+                key = (o.get('fn'), o.get('vc'))
+                if key not in drop_inserts:
+                    drop_inserts.add(key)
+                    log.append('R26 %s: proof block %s left out (does not compile against the changed body: %s)' % (fi.item, o.get('vc'), msg[:100]))
+                    new = True
+            elif o.get('kind') == 'repo' and fi.mode == 'body':
+                m1, m2 = _UNKNOWN_FN.search(msg), _UNKNOWN_METHOD.search(msg)
+                name, tname = (m1.group(1), None) if m1 else ((m2.group(1), m2.group(2)) if m2 else (None, None))
+                if name:
+                    # a method call on `self`: the type of the enclosing impl
+                    if tname is None and '::' in fi.item:
+                        tname = None
+                    hit = asm.find_helper(fi.file, name, tname or (fi.item.split('::')[0] if m2 else None))
+                    if hit and not any(x[1] == hit[0] and x[2] == hit[1] for x in extras) and not any(f.file == hit[0] and f.item == hit[1] for f in a.fns):
+                        extras.append((label, hit[0], hit[1]))
+                        log.append('R27 %s: helper %s::%s pulled in without a contract' % (fi.item, hit[0], hit[1]))
+                        new = True
+    return new
 
 
 def static_obligations(a: asm.Assembled) -> List[dict]:
